@@ -124,6 +124,7 @@ impl DayCase {
         DayCase::from_req(&t.join(" "))
     }
     pub fn run(&self) -> Result<Day, ()> {
+        crate::falsify::begin_case(self);
         catch_unwind(AssertUnwindSafe(|| prayer_times_dt(&self.p, self.l, date_of_rd(self.rd), self.w))).map_err(|_| ())
     }
     pub fn with<F: FnOnce(&mut Params)>(&self, f: F) -> DayCase {
